@@ -1220,8 +1220,14 @@ class FunctionScope(Scope):
         with self.subscope() as inner_scope:
             yield inner_scope
         new_defn_nodes = self.get_all_definition_nodes()
+        # Keep the new definition nodes in the order in which they were created; set
+        # iteration order would make the order of the resulting union nondeterministic.
+        position = {node: i for i, node in enumerate(self.definition_node_to_value)}
         rest_scope = {
-            key: list(nodes - old_defn_nodes.get(key, set()))
+            key: sorted(
+                nodes - old_defn_nodes.get(key, set()),
+                key=lambda node: position.get(node, -1),
+            )
             for key, nodes in new_defn_nodes.items()
             if key != LEAVES_SCOPE and key != LEAVES_LOOP
         }
